@@ -51,7 +51,7 @@ def observe(axml, t, data, api):
                 val /= 100.0
             shift = SHIFT[(data >> 4) & 3]
             scaled = round(val * (1 << shift))
-            rec.update(neg=(m.group(1) == "-") and val != 0, unit=m.group(3), scaled=int(min(scaled, 2 ** 30)))
+            rec.update(neg=(m.group(1) == "-"), unit=m.group(3), scaled=int(min(scaled, 2 ** 30)))      # "-0.000000" keeps its sign
     return rec, text
 
 
